@@ -1442,6 +1442,19 @@ for _pid in ("C01", "C02", "C08"):
         "hok l.hid stands for l.matchHeader(header); strings.Index and strings.TrimLeft are modelled for \"/\" only, url.PathUnescape is Base/Codec.pathUnescape; a slice bound out "
         "of range (a Go panic) is not represented — the theorems are stated for the runs on which the index-level model does not "
         "panic, which Proofs/TreeIdx and Props/C07 show to be all request paths"]
+for _pid in ("C01", "C02", "C08"):
+    PROPS[_pid]["code_modules"] = PROPS[_pid]["code_modules"] + ["Flamego.Props.C08AllTreeCode"]
+    PROPS[_pid]["level_text"] = PROPS[_pid]["level_text"].replace(
+        "matchAllTree.matchAll (a `for cond` loop) is not translated: it remains the model's matchAllLoopIdx, tied by the correspondence.",
+        "matchAllTree.matchAll too: its `for cond` loop with a return and a break inside is translated onto fuel (Gen/AllTreeCode.lean, "
+        "GoSem.whileFuel with the bound len(path)+1; running out of fuel would be the result `none`) and proved in Props/C08AllTreeCode "
+        "to return `some` of what the model's matchAllLoopIdx returns — the loop terminates within the bound, tries the children first, "
+        "swallows one more segment on a miss, stops at the capture limit (loop_refines, matchAll_refines, matchAll_segments: the "
+        "segment-level matchAllLoop; matchAll_is_lib: it is what the call on a match-all child stands for one level up).")
+    PROPS[_pid]["trusted_base"] = PROPS[_pid]["trusted_base"] + [
+        "code-level tie for matchAllTree.matchAll: translator/treecode.go (AllTreeCode); the bound of the `for cond` loop "
+        "(len(path)+1) is part of the translation's configuration — the theorem proves it is never reached, so it is not an assumption; "
+        "t.matchNextSegment (inherited from the embedded baseTree) is the model's matchNextIdx on the node's children"]
 _ALL = ['C01', 'C02', 'C03', 'C04', 'C05', 'C06', 'C07', 'C08', 'C09', 'C10', 'C11', 'C12', 'C13', 'C14', 'C15', 'C16', 'C17', 'C18']
 NOT_APPLICABLE = [
     {"property_id": p, "reason": "check not built yet in this revision (work in progress; see DESIGN.md §11 for the plan)"}
